@@ -19,8 +19,8 @@ CONSTANTS
   SigSeqs <- Multi3
   BurnVals <- NoVals
   Acceptance = "written"
-  CountsUnverified = TRUE
+  CountsUnverified = FALSE
   RewardNeedsStake = TRUE
 VIEW StateView
-PROPERTIES P_C18_QuorumOfWellFormed P_C18_NonceOnce P_C18_AmountsUnlessUnstaked P_C19_BurnExact
+PROPERTIES P_C18_MintQuorum P_C18_ExactThreshold P_C18_NonceOnce P_C18_AmountsUnlessUnstaked P_C19_BurnExact
 CHECK_DEADLOCK FALSE
